@@ -372,3 +372,9 @@ for p in ["C17", "C11"]:
     CHECKS[p]["harnesses"].append(H_RUNSNAP)
 for p in ["C17", "C08", "C09"]:
     CHECKS[p]["harnesses"].append(H_CAND_TIMEOUT)
+
+CHECKS["C10"]["harnesses"] += [H_DISPATCH, H_AE_LOG]
+CHECKS["C10"]["assumptions"] = CHECKS["C10"]["assumptions"] + AE_ASSUME
+
+CHECKS["C03"]["harnesses"].append(H_GATE)
+CHECKS["C02"]["harnesses"].append(H_TAKESNAP)
